@@ -21,7 +21,18 @@ gap-merging code of cogent3 is used by them):
 * progressive: content clause; every node's pair-HMM (sequence or
   sub-alignment children, predecessor lists read from the alignables) is
   maximised by an independent forward recursion and the node's traceback is
-  rescored; full DP vs Hirschberg.
+  rescored; full DP vs Hirschberg;
+* progressive, other options ('progopts'): the content clause and the node
+  clauses for DNA, codon and protein models, estimated / given (also
+  multifurcating) guide trees, iters / approx_dists / unique_guides /
+  param_vals, through the app and through tree_align directly;
+* 'sw': the smith_waterman app is judged like local_pairwise (content,
+  recorded sw_score == score of the returned path == maximum).
+
+Sequences of every sub-check may carry IUPAC ambiguity codes: the content
+clauses need them returned unaltered, the optimality clauses are judged on
+the aligner's own emission arrays (no independent model of how an ambiguity
+code is scored is needed or assumed).
 """
 
 from __future__ import annotations
@@ -44,11 +55,23 @@ RULE = (
     "given to pairwise_to_multiple; non-trivial = >= 2 non-reference rows whose reference gaps differ. ref: 3-6 related "
     "sequences through get_app('align_to_ref') with named or longest reference; non-trivial = >= 2 rows whose pairwise "
     "alignments put different gaps into the reference. progressive: 2-5 related DNA sequences with a generated guide tree "
-    "through get_app('progressive_align'); non-trivial = the result contains a gap and >= 3 sequences. Distinct = distinct "
-    "case encodings."
+    "through get_app('progressive_align'); non-trivial = the result contains a gap and >= 3 sequences. "
+    "progopts: 2-5 related sequences (DNA; codon sequences built from sense codons with whole-codon indels; protein over the 20 "
+    "model states) aligned by get_app('progressive_align') or cogent3.align.progressive.tree_align with model in {HKY85, F81, "
+    "JC69, TN93, K80, 'nucleotide'; 'codon'/MG94HKY; 'protein', JTT92, WG01}, guide tree estimated (None) or given (binary or "
+    "multifurcating newick, branch lengths incl. 0.0), iters None/1/2, approx_dists, unique_guides, param_vals, "
+    "params_from_pairwise, dict or collection input, optionally repeated with the Hirschberg limit 0 (content only); "
+    "non-trivial as for progressive. sw: pair cases (lengths 1-30) through get_app('smith_waterman') with passed or default "
+    "scores. In every sub-check one case in three draws its sequences from the canonical letters plus 1-3 IUPAC ambiguity codes "
+    "(DNA: NRYWSKMBDHV, protein: XBZ; codon cases: only codons whose every resolution is a sense codon); one ref family in four has "
+    "a member replaced by an exact duplicate, an unrelated sequence or a single residue. Distinct = distinct case encodings."
 )
 ASSUMPTIONS = [
-    "sequences are non-empty and contain canonical characters only (no ambiguity codes, no gaps)",
+    "sequences are non-empty and contain canonical characters and IUPAC ambiguity codes of the moltype (no gaps, no '?')",
+    "ambiguity codes: the input-preservation clauses (names, equal length, degapped rows equal the inputs character for character) apply to every aligner; "
+    "the own-model optimality clauses (reported score = rescored path = maximum, full DP vs Hirschberg) also apply because they are evaluated on the emission arrays "
+    "the aligner built, whatever it put there for an ambiguity code; how an ambiguity code is scored is not documented (observed: log of the mean of exp(score) "
+    "over the resolutions of both characters), so the relation between match emissions and the scoring dict is asserted for pairs of canonical characters only",
     "scoring dicts are symmetric and cover the whole moltype alphabet; scores in -20..20, d in 1..20, e in 0.5..5 (multiples of 0.5)",
     "optimality is judged on the aligner's own pair-HMM (transition matrix and emission arrays read from the PairHMM it built); "
     "that model is only required to encode the requested scores up to per-state additive constants: log T[M,gap]-log T[M,M] = -d, "
@@ -56,11 +79,23 @@ ASSUMPTIONS = [
     "scores are compared with relative tolerance 1e-9 (absolute 1e-9 below 1); co-optimal paths are all acceptable",
     "local alignment: the returned rows must be a contiguous part of each input; any occurrence of that part is accepted when rescoring",
     "pairwise_to_multiple is driven only with pairwise alignments reachable by the classic aligner (no insertion column adjacent to a deletion column, no all-gap column, >= 1 aligned column)",
-    "align_to_ref 'longest' is only used when the longest sequence is unique",
+    "align_to_ref 'longest' is only used when the longest sequence is unique, both counting and not counting ambiguity codes "
+    "(align_to_ref measures with SequenceCollection.get_lengths(), whose documented default leaves ambiguity codes out)",
     "progressive alignment: DNA models (HKY85, F81, JC69, TN93), guide tree with positive branch lengths covering exactly the sequences; "
     "each node is judged on the pair-HMM and predecessor graph it was given (so a node is checked against its own inputs even if an earlier node differed); "
     "node scores of the full-DP and the Hirschberg run are compared only when both runs return the same alignment",
     "multiple alignments are not required to be free of all-gap columns (not part of the property text)",
+    "progopts: only the clauses that hold for every option are asserted: the call completes, all names present, rows of equal length, degapped rows equal the inputs, "
+    "tree_align returns (alignment, tree) with the input names as tips, and every pair-HMM solved on the way (guide-tree pairwise alignments included) returns a maximal path of its own model; "
+    "which guide tree is estimated and what iters changes are not asserted. Codon models: lengths divisible by 3 and no stop codon under any resolution "
+    "(an incomplete trailing codon is documented to be dropped, test_codon_incomplete; a stop codon gives NotCompleted, test_progressive_fails). Protein models: the 20 model states "
+    "plus X/B/Z (U is not a state of JTT92/WG01). distance='pdist' (default) only: 'paralinear' is undefined for many short pairs and the app then returns the tree builder's NotCompleted",
+    "progopts, estimated guide tree: when the distance/tree-building apps cannot produce a tree the app returns their NotCompleted (origin quick_tree, fast_slow_dist, ...) and "
+    "tree_align raises the ArithmeticError documented by Alignment.distance_matrix ('not all pairwise distances could be computed'); both are counted as class no-guide-tree, not as failures. "
+    "A NotCompleted whose origin is progressive_align, or any other exception, is a failure",
+    "progopts with tree_align and a codon model always passes a guide tree (estimating one runs an optimiser per pair: seconds per case)",
+    "sw: the smith_waterman app is documented as local alignment with the score stored in info['align_params']['sw_score'] (tests pin equality with local_pairwise); "
+    "its default scores are make_dna_scoring_dict(10, -1, -8) for DNA and make_generic_scoring_dict(10, moltype) otherwise (docstring)",
     "the legacy pure-python kernel py_calc_rows is not compared (it is not reachable from any aligner and not covered by the suite)",
 ]
 
@@ -82,6 +117,27 @@ AA20 = "ACDEFGHIKLMNPQRSTVWY"  # states of the protein substitution models (no U
 
 def _alpha(mt):
     return DNA if mt == "dna" else PROT
+
+
+class _R:
+    """repr of a cogent3 object, evaluated only when a message is formatted and never raising"""
+
+    def __init__(self, obj):
+        self.obj = obj
+
+    def __str__(self):
+        try:
+            return repr(self.obj)[:400]
+        except Exception as e:  # noqa: BLE001
+            return f"<{type(self.obj).__name__}: repr raised {type(e).__name__}>"
+
+
+def _completed(s, sig, res, what):
+    """res is an alignment-like result (not a NotCompleted); the message is only built on failure"""
+    if hasattr(res, "to_dict") and type(res).__name__ != "NotCompleted":
+        return True
+    s.fail(sig, f"{what} {_R(res)}")
+    return False
 
 
 def _ncanon(text, mt):
@@ -498,9 +554,9 @@ def observe_pair(s, sig, fn, s1, s2, S, d, e, limit):
     try:
         aln, score = res
     except Exception:  # noqa: BLE001
-        s.fail(f"{sig}/result", f"expected (alignment, score), got {res!r}"[:300])
+        s.fail(f"{sig}/result", f"expected (alignment, score), got {_R(res)}")
         return None
-    if not s.check(type(aln).__name__ != "NotCompleted" and hasattr(aln, "to_dict"), f"{sig}/completed", f"returned {aln!r}"[:400]):
+    if not _completed(s, f"{sig}/completed", aln, "returned"):
         return None
     try:
         score = float(score)
@@ -906,7 +962,7 @@ def exec_ref(case) -> Soft:
     ok, res = s.call("call", app, coll)
     if not ok:
         return s
-    if not s.check(hasattr(res, "to_dict") and type(res).__name__ != "NotCompleted", "completed", f"app returned {res!r}"[:400]):
+    if not _completed(s, "completed", res, "app returned"):
         return s
     ok, rows = s.call("to_dict", lambda: {str(k): str(v) for k, v in res.to_dict().items()})
     if not ok:
@@ -1023,7 +1079,7 @@ def _prog_run(s, sig, case, limit):
         ok, res = s.call(f"{sig}/call", app, coll)
     if not ok:
         return None
-    if not s.check(hasattr(res, "to_dict") and type(res).__name__ != "NotCompleted", f"{sig}/completed", f"app returned {res!r}"[:400]):
+    if not _completed(s, f"{sig}/completed", res, "app returned"):
         return None
     ok, rows = s.call(f"{sig}/to_dict", lambda: {str(k): str(v) for k, v in res.to_dict().items()})
     if not ok:
@@ -1186,7 +1242,7 @@ def _opts_run(s, sig, case, limit):
             # the app hands their NotCompleted on (app/align.py progressive_align.main): not an alignment result
             if estimated and str(getattr(res, "origin", "")) in TREE_BUILDERS:
                 return "no-guide-tree"
-            s.fail(f"{sig}/completed", f"app returned {res!r}"[:400])
+            s.fail(f"{sig}/completed", f"app returned {_R(res)}")
             return None
         aln = res
     else:
@@ -1209,13 +1265,14 @@ def _opts_run(s, sig, case, limit):
                     return "no-guide-tree"
                 s.fail(f"{sig}/tree_align/raises:ArithmeticError@{exception_site(res)}", f"{res}"[:300])
             return None
-        if not s.check(isinstance(res, tuple) and len(res) == 2, f"{sig}/returns-alignment-and-tree", f"got {res!r}"[:300]):
+        if not (isinstance(res, tuple) and len(res) == 2):
+            s.fail(f"{sig}/returns-alignment-and-tree", f"got {_R(res)}")
             return None
         aln, tree = res
         ok, tips = s.call(f"{sig}/tree-tips", lambda: sorted(tree.get_tip_names()))
         if ok:
             s.eq(tips, sorted(data), f"{sig}/tree-tips", "tips of the returned guide tree")
-    if not s.check(hasattr(aln, "to_dict"), f"{sig}/completed", f"returned {aln!r}"[:400]):
+    if not _completed(s, f"{sig}/completed", aln, "returned"):
         return None
     ok, rows = s.call(f"{sig}/to_dict", lambda: {str(k): str(v) for k, v in aln.to_dict().items()})
     if not ok:
@@ -1391,16 +1448,20 @@ KNOWN_PREDICATES = {}
 
 META = {
     "technique": "exhaustive path enumeration and an independent backward recursion over the aligner's own pair-HMM arrays; "
-    "differential full DP vs Hirschberg; projection oracle for reference-based merging; content oracle for progressive alignment",
+    "differential full DP vs Hirschberg; projection oracle for reference-based merging; content oracle for progressive alignment "
+    "(also over models, guide-tree sources and options, app and tree_align entry points) and for sequences with ambiguity codes",
     "level_text": "For generated sequence pairs (DNA and protein, lengths 1-60, identical/unrelated/substring/mutated), scoring "
     "dicts, gap penalties and both alignment modes the harness reads the pair-HMM the aligner built, scores the returned path "
     "itself and compares the reported score with the maximum over all paths (every path enumerated up to about 9000 paths, "
     "an independent recursion beyond), and repeats the global alignment with the Hirschberg limit lowered. Reference-based "
     "merging is driven with generated classic-reachable pairwise alignments and through align_to_ref, and judged by projecting "
     "the result back onto each (reference, row) pair. Progressive alignment is judged on content, on optimality of every node's traceback for that node's own "
-    "pair-HMM (forward recursion over the predecessor graph) and on agreement of full and linear-space dynamic programming. Exploration, not proof.",
+    "pair-HMM (forward recursion over the predecessor graph) and on agreement of full and linear-space dynamic programming. "
+    "A further sub-check runs progressive alignment with DNA, codon and protein models, estimated and given (also multifurcating) guide trees, iters, approx_dists, "
+    "unique_guides and param_vals, through the app and through tree_align, and the smith_waterman app is judged like local_pairwise. One case in three of every sub-check "
+    "carries IUPAC ambiguity codes, which must come back unaltered. Exploration, not proof.",
     "level_note": "Trusts the harness' path scorer/enumerator (about 120 lines) and numpy's log. The model arrays are read from "
     "cogent3 objects, so an error in how emission arrays are built from the substitution scores is only seen through the ratio "
-    "relations stated in the assumptions. Alignment-of-alignment nodes are judged on the predecessor lists their alignables expose (the partial order graph itself is not re-derived from the sub-alignment).",
+    "relations stated in the assumptions, and for ambiguity codes not at all (their scoring is undocumented). Alignment-of-alignment nodes are judged on the predecessor lists their alignables expose (the partial order graph itself is not re-derived from the sub-alignment).",
     "design_ref": "DESIGN.md section 1, C18",
 }
